@@ -40,8 +40,24 @@ theorem one_step_defaults (m : Model α) (b : Backend) (params : List (String ×
   unfold one_step
   cases initialPopulation m params <;> rfl
 
+
+/-- the derived outputs returned are `Derived.derivedOutputs` (the object of the C08 / C14 theorems) of the returned trajectory, of the flow
+rows evaluated at each row's own time and state (`Derived.flowsForOutputs`, C10), under the captured derived-output parameters updated by
+this call's parameters -/
+theorem run_model_derived (m : Model α) (b : Backend) (solve : (List α → α → List α) → List α → List α → List (List α))
+    (doBase params : List (String × α)) (outs : List (List α)) (d : List (String × List α))
+    (h : run_model m b solve doBase params = some (outs, d)) :
+    ∃ flows cvs, Derived.flowsForOutputs m b params (modelTimes m) outs = some (flows, cvs) ∧
+      Derived.derivedOutputs m { times := modelTimes m, outputs := outs, flows := flows, computed := cvs, params := params ++ doBase } = some d := by
+  simp only [run_model, Option.bind_eq_bind, Option.bind_eq_some_iff, Option.pure_def, Option.some.injEq, Prod.mk.injEq] at h
+  obtain ⟨x0, hx, _, _, fc, hf, h⟩ := h
+  obtain ⟨dd, hd, h1, h2⟩ := h
+  subst h1 h2
+  exact ⟨fc.1, fc.2, hf, hd⟩
+
 end
 
+#print axioms run_model_derived
 #print axioms one_step_explicit
 #print axioms one_step_defaults
 #print axioms run_model_eq
